@@ -150,6 +150,12 @@ def nestbase(a, b=2, _get=False):
 nested = nestbase(0, _get=True)      # its place in the store lies INSIDE the directory of nestbase
 
 
+def kwnames(func, args=1, kwargs=2, ignore=3):
+    # parameter names that joblib itself uses in its own signatures (not `self`: no bound method accepts that keyword)
+    COUNT["kwnames"] += 1
+    return ("kwnames", [("func", _c(func)), ("args", _c(args)), ("kwargs", _c(kwargs)), ("ignore", _c(ignore))])
+
+
 async def acoro(a, b=5):
     COUNT["acoro"] += 1
     return ("acoro", [("a", _c(a)), ("b", _c(b))])
@@ -235,7 +241,7 @@ def gen_call(rng, fn, pool):
 def gen_history(rng, n_ops=14):
     funcs = gen_universe(rng, rng.choice([1, 2, 3]))
     pool = rng.sample(range(len(VALUES)), rng.randint(2, 5))
-    specials = ["meth1", "meth2", "part", "acoro", "part", "part2", "part3", "nestbase", "nested"]
+    specials = ["meth1", "meth2", "part", "acoro", "part", "part2", "part3", "nestbase", "nested", "kwnames"]
     p_special = 0.12
     if rng.random() < 0.12:
         # histories about callables that share one place in the store (partials; the two bound methods)
@@ -251,6 +257,9 @@ def gen_history(rng, n_ops=14):
                 sp = rng.choice(specials)
                 c = {"fn": sp, "args": [rng.randrange(len(pool))] + ([rng.randrange(len(pool))] if rng.random() < 0.4 else []),
                      "kwargs": {}}
+                if sp == "kwnames":
+                    c["args"] = [rng.randrange(len(pool))] if rng.random() < 0.4 else []
+                    c["kwargs"] = {n_: rng.randrange(len(pool)) for n_ in (["func"] if not c["args"] else []) + rng.sample(["args", "kwargs", "ignore"], rng.randint(0, 2))}
                 if sp.startswith("part"):
                     c["args"] = [rng.randrange(len(pool))]; c["kwargs"] = {"c": rng.randrange(len(pool))} if rng.random() < 0.4 else {}
             else:
@@ -284,6 +293,8 @@ def gen_history(rng, n_ops=14):
         else:
             ops.append(["fclear", rng.choice(funcs)["name"]])
     hist = {"funcs": funcs, "pool": pool, "ops": ops}
+    if rng.random() < 0.2:
+        hist["verbose"] = 1          # Memory's default verbosity (messages go to a discarded stdout)
     if rng.random() < 0.15:
         # the same functions cached at two store locations by the same processes
         hist["two_locations"] = True
@@ -410,8 +421,11 @@ def session(root, hist, start, t0, compress):
     _LAYOUT_PAD = [bytearray(64 + (start * 37 + k) % 200) for k in range(500 + 131 * (start + 1))]
     clock = simfs.Clock(t0).install()
     umod = simfs.load_module(root, "umod")
-    mems = [Memory(os.path.join(root, "cache"), verbose=0, compress=compress),
-            Memory(os.path.join(root, "cache_b"), verbose=0, compress=compress)]
+    vb = hist.get("verbose", 0)
+    if vb:
+        sys.stdout = open(os.devnull, "w")
+    mems = [Memory(os.path.join(root, "cache"), verbose=vb, compress=compress),
+            Memory(os.path.join(root, "cache_b"), verbose=vb, compress=compress)]
     ignore = {f["name"]: f["ignore"] for f in hist["funcs"]}
     cached = {}; cachedcb = {}
 
